@@ -194,3 +194,45 @@ func (h *history) otherUpstreamTraffic() {
 		}
 	}
 }
+
+// changeBurstOnly: the global BURST of a token-bucket schema changes while its qps stays what it is (also: the cluster object
+// is delivered again unchanged, as every edit of servers / policies / certificates does). Every instance then reports twice;
+// the answers are judged as always - the burst answered is the quota's share of the global burst NOW in force.
+func (h *history) changeBurstOnly() {
+	var tbs []int
+	for i, s := range h.schemas {
+		if s.TB {
+			tbs = append(tbs, i)
+		}
+	}
+	if len(tbs) == 0 {
+		return
+	}
+	s := &h.schemas[tbs[h.g.Intn(len(tbs))]]
+	old := s.Burst
+	nb := []int64{1, int64(old) / 2, int64(old) - 1, int64(old) + 1, int64(s.Limit), 2 * int64(s.Limit), int64(s.Limit) / 2, int64(old)}[h.g.Intn(8)]
+	if nb < 1 {
+		nb = 1
+	}
+	s.Burst = clamp32(nb)
+	h.r.Count("sys_burst_only_changes", 1)
+	switch {
+	case s.Burst < old:
+		h.r.Count("sys_burst_only_lowered", 1)
+	case s.Burst == old:
+		h.r.Count("sys_cluster_redelivered_unchanged", 1)
+	}
+	if err := h.srv.ApplyUpstream(buildCluster(h.upstream, h.schemas)); err != nil {
+		h.r.Count("sys_report_errors", 1)
+	}
+	h.logf("global burst of %s: %d -> %d (qps stays %d)", s.Name, old, s.Burst, s.Limit)
+	for round := 0; round < 2 && !h.dead; round++ {
+		for _, k := range h.g.Perm(len(h.gws)) {
+			if h.dead {
+				break
+			}
+			h.reportOne(h.gws[k])
+			h.r.Count("sys_token_bucket_answers_after_burst_only_change", 1)
+		}
+	}
+}
